@@ -199,6 +199,10 @@ func (ch *channel) SendAndClose(ctx async.Context, data []byte) status.Status {
 // Receive receives and returns a message, or an end status.
 func (ch *channel) Receive(ctx async.Context) ([]byte, status.Status) {
 	for {
+		// Arm the wait channel before polling: the queue's wait channel only looks at its first block,
+		// so a message queued before the wait is armed would otherwise be missed and never signalled.
+		wait := ch.ReceiveWait()
+
 		// Poll channel
 		data, ok, st := ch.ReceiveAsync(ctx)
 		switch {
@@ -212,7 +216,7 @@ func (ch *channel) Receive(ctx async.Context) ([]byte, status.Status) {
 		select {
 		case <-ctx.Wait():
 			return nil, ctx.Status()
-		case <-ch.ReceiveWait():
+		case <-wait:
 		}
 	}
 }
